@@ -235,6 +235,69 @@ def run(repo: Repo, L: Ledger, tier: str):
                 ok4b, why4b = False, "numbering happens before the groups are sorted"
     L.check(ok4b, "R4", nc.short + ":number", "chromosome n = index + 1 for every group", why4b, nc.loc())
     _first_haplotype(repo, L)
+    _unloc_flush(repo, L)
+    _prefix_copies(repo, L)
+
+
+def _unloc_flush(repo, L):
+    """R5: the unlocs of every Pretext scaffold — including the last one — are renumbered by size: in the scaffold loop of the
+    lookup function the renumbering call comes after the scaffold's pieces were labelled, on every normal path of an iteration"""
+    from ..flow import PathEnum
+    from ..util import path_calls
+
+    L.rule("R5", "unlocs renumbered by size once per Pretext scaffold, after its pieces are labelled")
+    ba = repo.cls("BuildAssembly")
+    fao = ba.methods.get("find_assembly_overlaps")
+    if fao is None:
+        raise AnalysisError("anchor BuildAssembly.find_assembly_overlaps vanished")
+    loops = [n for n in fao.node.body if isinstance(n, ast.For) and norm(n.iter).endswith(".scaffolds")]
+    if len(loops) != 1:
+        raise AnalysisError(f"{fao.short}: loop over the Pretext scaffolds not found")
+    ok, why, n_p = True, "", 0
+    for p in PathEnum((0, 1), exc_edges=False).block(loops[0].body):
+        if p.status == "raise":
+            continue
+        n_p += 1
+        seq = []
+        for e in p.events:
+            if e.kind in ("stmt", "cond"):
+                for c in [x for x in [e.node, *walk_shallow(e.node)] if isinstance(x, ast.Call) and isinstance(x.func, ast.Attribute)]:
+                    if c.func.attr == "label_scaffold":
+                        seq.append("label")
+                    elif c.func.attr == "rename_unlocs_by_size":
+                        seq.append("flush")
+        if p.status != "fall" or seq.count("flush") != 1 or seq[-1:] != ["flush"]:
+            ok, why = False, f"an iteration over a Pretext scaffold makes the calls {seq or 'none'} ({p.status}): the unlocs of that scaffold are not renumbered by size after its pieces were labelled — for the last scaffold of the map they never are (…_unloc_1 smaller than …_unloc_2)"
+    L.check(ok and n_p > 0, "R5", fao.short + ":unloc-flush", f"rename_unlocs_by_size() closes every iteration ({n_p} paths)", why, fao.loc(loops[0]), witness={"map": "the last Pretext scaffold is a painted chromosome with two Unloc pieces, smaller one first"})
+
+
+def _prefix_copies(repo, L):
+    """R6: a long-lived object that is built from the autosome prefix is updated when the prefix is set (or built at use time)."""
+    L.rule("R6", "every stored copy of the autosome prefix follows the setter")
+    ba = repo.cls("BuildAssembly")
+    setter = ba.methods.get("autosome_prefix.setter")
+    if setter is None:
+        raise AnalysisError("anchor BuildAssembly.autosome_prefix setter vanished")
+    updated = set()
+    for n in walk_shallow(setter.node):
+        if isinstance(n, ast.Assign):
+            for t in n.targets:
+                if isinstance(t, ast.Attribute) and isinstance(t.value, ast.Attribute) and is_name(t.value.value, "self"):
+                    updated.add(t.value.attr)
+    n_c = 0
+    for m in ba.methods.values():
+        for n in walk_shallow(m.node):
+            if isinstance(n, ast.Assign) and len(n.targets) == 1 and isinstance(n.targets[0], ast.Attribute) and is_name(n.targets[0].value, "self") and isinstance(n.value, ast.Call):
+                uses_prefix = any(isinstance(x, ast.Attribute) and x.attr == "autosome_prefix" and is_name(x.value, "self") for a in [*n.value.args, *[k.value for k in n.value.keywords]] for x in ast.walk(a))
+                if uses_prefix:
+                    n_c += 1
+                    attr = n.targets[0].attr
+                    L.check(
+                        attr in updated, "R6", f"{m.short}:self.{attr}", "kept in step by the autosome_prefix setter",
+                        f"self.{attr} is built from the autosome prefix at that moment and kept; the autosome_prefix setter updates only {sorted(updated)}: with --autosome-prefix the chromosomes are still named with the old prefix",
+                        m.loc(n), witness={"option": "--autosome-prefix chr"},
+                    )
+    L.ok("R6", "prefix copies", f"{n_c} stored object(s) built from the prefix; setter updates {sorted(updated)}", ba.module.relpath)
 
 
 def _first_haplotype(repo, L):
